@@ -710,6 +710,8 @@ class Exec:
     def contains(self, container, item):
         if hasattr(container, "hv_contains"):
             return container.hv_contains(self, item)
+        if isinstance(container, (list, tuple)) and any(isinstance(c, Guarded) for c in container):
+            return z_or(*[z_and(c.cond, self.compare(ast.Eq(), item, c.value)) if isinstance(c, Guarded) else self.compare(ast.Eq(), item, c) for c in container])
         if isinstance(container, (list, tuple, set, frozenset)):
             if not is_sym(item) and all(not is_sym(c) and not isinstance(c, EnumVal) for c in container) and not isinstance(item, EnumVal):
                 return item in container
@@ -905,11 +907,11 @@ class Exec:
             keep = True
             for c in g.ifs:
                 t = truth(self.eval(c, pc, e2))
-                if not isinstance(t, bool):
-                    raise Unsupported("comprehension filter is symbolic")
-                keep = keep and t
-            if keep:
+                keep = z_and(keep, t)
+            if keep is True:
                 out.append(make(e2))
+            elif keep is not False:
+                out.append(Guarded(keep, make(e2)))  # element present only under a symbolic condition
         return out
 
     def ex_ListComp(self, n, pc, env):
@@ -1068,6 +1070,16 @@ class _Fork(Exception):
 
 
 # ---------------------------------------------------------------------------------------------- misc value kinds
+
+
+class Guarded:
+    """A list element that is present only when `cond` holds (from a comprehension with a symbolic filter)."""
+
+    def __init__(self, cond, value):
+        self.cond, self.value = cond, value
+
+    def __deepcopy__(self, memo):
+        return self
 
 
 class Builtin:
